@@ -286,6 +286,8 @@ def np_funcs(mod) -> Dict[str, Any]:
 
     def array(ev, call):
         v = ev.ev(call.args[0])
+        if isinstance(v, Vec):
+            return list(v.vals)
         if isinstance(v, list):
             return list(v)
         if isinstance(v, Mat):
@@ -294,6 +296,8 @@ def np_funcs(mod) -> Dict[str, Any]:
 
     def asarray(ev, call):
         v = ev.ev(call.args[0])
+        if isinstance(v, Vec):
+            return v.vals
         if isinstance(v, (list, Mat)):
             return v
         raise Unsupported("asarray of abstract", call)
